@@ -186,6 +186,8 @@ def run(ctx: Ctx):
                "the state passed to lm.calc_idx_log_probs on the next frame is not the result of mix_by_mask", rel,
                sl.calc_assign.lineno)
 
+    _fusion_formula(ctx, fwd, sl, pt, rel, where_f)
+    _mass_constants(ctx, adv, rel, where_a)
     # ---- S3 padding sentinels ---------------------------------------------------------------------
     _s3(ctx, adv, fwd, sl, rel)
 
@@ -344,10 +346,214 @@ MANIFEST = dict(
 )
 
 
+
+SHAPE_ONLY = {"view", "unsqueeze", "expand", "flatten", "reshape", "squeeze", "contiguous", "clone", "expand_as", "view_as"}
+
+
+def _fusion_formula(ctx: Ctx, fwd, sl, pt, rel, where_f):
+    """S1/S5 the score handed to the advance step as the extension probability, per fusion arm, as a polynomial over
+    {beta, CTC (the frame's label probabilities), BLANK, SM[lm] (the fused model's softmax)}. Shape-only methods are
+    transparent; `softmax`/`log_softmax`/`exp` move between the raw, log and probability domains. The documented arms:
+      no model or beta == 0 : CTC
+      plain shallow fusion  : CTC * SM[lm]^beta
+      valid mixture         : (1 - beta) CTC + beta SM[lm] (1 - BLANK)"""
+    from sa.norm import Poly, padd, pmul, pconst, patom, pstr
+    col = ctx.col
+    rd = sl.rd
+    pm = parent_map(fwd.node)
+
+    class Und(Exception):
+        pass
+
+    def leaf_role(name_node, d):
+        v = d.value
+        if d.kind == "unpack" and isinstance(v, ast.Call) and isinstance(v.func, ast.Attribute) and v.func.attr == "calc_idx_log_probs" \
+                and d.slot == (0,):
+            return ("R", pconst(1), "lm")
+        # frame slices: X[t] of probs[..., :V] / probs[..., V]
+        if isinstance(v, ast.Tuple) and d.kind == "unpack" and d.slot and len(d.slot) == 1:
+            v = v.elts[d.slot[0]]
+        if isinstance(v, ast.Subscript) and isinstance(v.value, ast.Name) and not isinstance(v.slice, (ast.Tuple, ast.Slice)):
+            for d2 in rd.defs_of(v.value):
+                v2 = d2.value
+                if isinstance(v2, ast.Subscript) and isinstance(v2.slice, ast.Tuple) and len(v2.slice.elts) == 2 \
+                        and isinstance(v2.slice.elts[0], ast.Constant) and v2.slice.elts[0].value is Ellipsis:
+                    base = v2.value
+                    bd = [x.value for x in rd.defs_of(base)] if isinstance(base, ast.Name) else []
+                    if not (len(bd) == 1 and isinstance(bd[0], ast.Call) and isinstance(bd[0].func, ast.Attribute)
+                            and bd[0].func.attr == "softmax"):
+                        raise Und(f"`{u(v2)}` is not a slice of the frame softmax")
+                    it = v2.slice.elts[1]
+                    if isinstance(it, ast.Slice) and it.lower is None and it.upper is not None:
+                        return ("P", patom("CTC"))
+                    if not isinstance(it, ast.Slice):
+                        return ("P", patom("BLANK"))
+        return None
+
+    def ev(e, depth=0):
+        if depth > 30:
+            raise Und("too deep")
+        if isinstance(e, ast.Constant) and isinstance(e.value, (int, float)) and not isinstance(e.value, bool):
+            from fractions import Fraction
+            return ("P", pconst(Fraction(str(e.value))))
+        if isinstance(e, ast.Attribute) and u(e.value) == "self":
+            return ("P", patom(e.attr))
+        if isinstance(e, ast.Name):
+            ds = list(rd.defs_of(e))
+            if len(ds) != 1:
+                raise Und(f"`{e.id}` has {len(ds)} reaching definitions")
+            r = leaf_role(e, ds[0])
+            if r is not None:
+                return r
+            if ds[0].kind != "assign" or ds[0].value is None:
+                raise Und(f"`{e.id}` is not a plain assignment")
+            return ev(ds[0].value, depth + 1)
+        if isinstance(e, ast.UnaryOp) and isinstance(e.op, ast.USub):
+            k, *r = ev(e.operand, depth + 1)
+            if k == "P":
+                return ("P", pmul(pconst(-1), r[0]))
+            return (k, pmul(pconst(-1), r[0]), r[1])
+        if isinstance(e, ast.BinOp) and isinstance(e.op, (ast.Add, ast.Sub)):
+            a, b = ev(e.left, depth + 1), ev(e.right, depth + 1)
+            if a[0] != "P" or b[0] != "P":
+                raise Und(f"`{u(e)[:60]}` adds values outside the probability domain")
+            return ("P", padd(a[1], b[1], 1 if isinstance(e.op, ast.Add) else -1))
+        if isinstance(e, ast.BinOp) and isinstance(e.op, ast.Mult):
+            a, b = ev(e.left, depth + 1), ev(e.right, depth + 1)
+            if a[0] == "P" and b[0] == "P":
+                return ("P", pmul(a[1], b[1]))
+            if a[0] == "P":
+                a, b = b, a
+            if b[0] != "P":
+                raise Und(f"`{u(e)[:60]}` multiplies two log-domain values")
+            return (a[0], pmul(a[1], b[1]), a[2])
+        if isinstance(e, ast.Call) and isinstance(e.func, ast.Attribute):
+            m = e.func.attr
+            if m in SHAPE_ONLY:
+                return ev(e.func.value, depth + 1)
+            x = ev(e.func.value, depth + 1)
+            if m == "softmax":
+                if x[0] != "R":
+                    raise Und(f"softmax of a {x[0]}-domain value")
+                return ("P", patom(f"SM[{pstr(x[1])}*{x[2]}]"))
+            if m == "log_softmax":
+                if x[0] != "R":
+                    raise Und(f"log_softmax of a {x[0]}-domain value")
+                return ("L", pconst(1), f"SM[{pstr(x[1])}*{x[2]}]")
+            if m == "exp":
+                if x[0] == "L":
+                    return ("P", patom(x[2] if pstr(x[1]) == "1" else f"{x[2]}^({pstr(x[1])})"))
+                if x[0] == "R":
+                    return ("P", patom(f"EXP[{pstr(x[1])}*{x[2]}]"))
+                raise Und("exp of a probability")
+            if m == "log":
+                raise Und("log")
+        raise Und(f"`{u(e)[:60]}` is outside the fusion-formula fragment")
+
+    if not (isinstance(pt, ast.Tuple) and len(pt.elts) == 3 and isinstance(pt.elts[0], ast.Name)):
+        raise AnalysisError("C05: the extension probability passed to the advance step is not a name")
+    WANT = {
+        "none": padd({}, patom("CTC")),
+        "plain": pmul(patom("CTC"), patom("SM[1*lm]^(beta)")),
+        "valid": padd(padd(patom("CTC"), pmul(patom("beta"), patom("CTC")), -1),
+                      pmul(pmul(patom("beta"), patom("SM[1*lm]")), padd(pconst(1), patom("BLANK"), -1))),
+    }
+    seen = {}
+    for d in rd.defs_of(pt.elts[0]):
+        if d.stmt is None:
+            continue
+        gs = guards_of(pm, d.stmt)
+        arm = None
+        for t, pol in gs:
+            txt = u(t)
+            if "valid_mixture" in txt:
+                arm = "valid" if pol else "plain"
+        if arm is None:
+            for t, pol in gs:
+                if "lm" in u(t) and "beta" in u(t):
+                    arm = "none" if pol else arm
+        if arm is None:
+            col.undecided(f"{where_f}::extension-score: definition at line {d.line} is under no recognised fusion guard")
+            continue
+        try:
+            r = ev(d.value)
+            got = r[1] if r[0] == "P" else None
+            why = "" if r[0] == "P" else f"a {r[0]}-domain value"
+        except Und as ex:
+            got, why = None, str(ex)
+        seen[arm] = True
+        if got is None and not why.endswith("-domain value"):
+            col.undecided(f"{where_f}::extension-score[{arm}]: {why}")
+            continue
+        ok = got is not None and got == WANT[arm]
+        col.ob("G13", "S1", f"{where_f}::extension-score[{arm}]", ok,
+               f"in the {arm!r} fusion arm the extension probability is {pstr(got) if got is not None else why}, not "
+               f"{pstr(WANT[arm])}: the reported mass is no longer what the prefix-beam recursion assigns with the documented "
+               f"fusion score (beta scales the normalised log-probability; the mixture uses the model's softmax)", rel, d.line,
+               sample=pstr(got) if got is not None else why)
+    col.floor("fusion_arms", len(seen), 3)
+
+
+
+def _mass_constants(ctx: Ctx, adv, rel, where_a):
+    """S3 a probability-space mass is either a genuine mass or one of the two documented sentinels: 0 (nothing there) and -inf
+    (removed from the ranking). Any other constant written into a tensor that derives from the step's masses (masked_fill /
+    scatter / where with a literal) gives a slot a mass that is neither - a finite negative one outranks the -inf fillers once
+    the width exceeds the live prefixes, a positive one adds mass no alignment has."""
+    col = ctx.col
+    rd = ReachingDefs(adv.node)
+    mass_params = {adv.params[i].name for i in (0, 4) if i < len(adv.params)}
+    if len(mass_params) != 2:
+        raise AnalysisError("C05: ctc_prefix_search_advance lost its (probs_t, ..., probs_prev) formals")
+    sites = []
+
+    def lit(e):
+        if is_neg_inf(e):
+            return "-inf"
+        if isinstance(e, ast.UnaryOp) and isinstance(e.op, ast.USub) and isinstance(e.operand, ast.Constant) \
+                and isinstance(e.operand.value, (int, float)):
+            return -e.operand.value
+        if isinstance(e, ast.Constant) and isinstance(e.value, (int, float)) and not isinstance(e.value, bool):
+            return e.value
+        return None
+    for c in own_calls(adv.node):
+        if not isinstance(c.func, ast.Attribute):
+            continue
+        m = c.func.attr
+        val = None
+        if m in ("masked_fill", "masked_fill_") and len(c.args) == 2:
+            val = c.args[1]
+        elif m in ("scatter", "scatter_") and len(c.args) == 3:
+            val = c.args[2]
+        elif m in ("fill_", "index_fill", "index_fill_") and c.args:
+            val = c.args[-1]
+        if val is None:
+            continue
+        v = lit(val)
+        if v is None:
+            continue
+        if not (rd.derives(c.func.value).params() & mass_params):
+            continue
+        # integer-typed bookkeeping (lengths, tokens) is not a mass: a mass receiver derives from the float params only
+        sites.append((c, v))
+    bad = [(c, v) for c, v in sites if not (v == "-inf" or v == 0)]
+    col.ob("G13", "S3", f"{where_a}::mass-constants-are-0-or-neg-inf", bool(sites) and not bad,
+           f"`{u(bad[0][0])[:90] if bad else ''}` writes the constant {bad[0][1] if bad else ''} into a mass: a slot without a "
+           f"real prefix must carry 0 or -inf, and a finite negative value outranks the -inf fillers so that merged-away "
+           f"duplicates enter a beam wider than the live prefixes", rel, bad[0][0].lineno if bad else adv.line,
+           sample=[f"{u(c)[-50:]} -> {v}" for c, v in sites])
+    col.floor("mass_constant_sites", len(sites), 3)
+
+
 def _mutants():
     from selftest.mutate import Mutant as M
     D = "_decoding.py"
     return [
+        M("merged-duplicate-finite-fill", D, "nb_ext_probs_cand = nb_ext_probs_cand.masked_fill(has_match, -float('inf'))",
+          "nb_ext_probs_cand = nb_ext_probs_cand.masked_fill(has_match, -1.0)", "mass-constants-are-0-or-neg-inf"),
+        M("beta-scales-before-normalising", D, "lm_log_probs_t = lm_log_probs_t.log_softmax(-1)", "lm_log_probs_t = (self.beta * lm_log_probs_t).log_softmax(-1)", "extension-score[plain]"),
+        M("mixture-exp-for-softmax", D, "lm_log_probs_t.softmax(-1).view(N, prev_width, V)", "lm_log_probs_t.exp().view(N, prev_width, V)", "extension-score[valid]"),
+        M("mixture-forgets-blank", D, " * (1 - blank_probs_t.view(N, 1, 1))", " * (1 - blank_probs_t.view(N, 1, 1) * 0)", "extension-score[valid]"),
         M("fused-merge-swapped", "_lm.py", "return self.merge_dicts(prev_first, prev_second)", "return self.merge_dicts(prev_second, prev_first)", "merge_dicts[", -1),
         M("fused-mix-crosses-components", "_lm.py", "prev_second = self.second.mix_by_mask(prev_second_true, prev_second_false, mask)", "prev_second = self.second.mix_by_mask(prev_first_true, prev_second_false, mask)", "own-state"),
         M("mass-times-mask-again", D, "b_nonext_probs_cand.gather(1, next_src).masked_fill(~next_is_nonext, 0.0)",
